@@ -12,8 +12,11 @@ import time
 import traceback
 
 ROOT = os.path.dirname(os.path.dirname(os.path.abspath(__file__)))
-OUT = os.path.join(ROOT, 'out')
-EVID = os.path.join(ROOT, 'evidence')
+# VERIF_OUT_SUFFIX (tools/mutate.py, tools/runpatched.py): several runs of one check side by side
+# write their replay and evidence files under out/ instead of sharing evidence/<id>.json
+_SUF = os.environ.get('VERIF_OUT_SUFFIX', '')
+OUT = os.path.join(ROOT, 'out' + ('/runs' + _SUF if _SUF else ''))
+EVID = os.path.join(ROOT, 'evidence') if not _SUF else os.path.join(ROOT, 'out', 'evidence' + _SUF)
 KNOWN_FILE = os.path.join(ROOT, 'known_findings.jsonl')
 
 EXIT_OK, EXIT_VIOLATION, EXIT_HARNESS = 0, 1, 3
